@@ -137,40 +137,46 @@ def outputName : Val → Except Err Val
   | .str _ => .error .other
   | _ => .error .typeError
 
+/-- the iteration over `config.rules` -/
+def checkRulesV : Val → Except Err Unit
+  | .list l => checkRules l
+  | .tuple l => checkRules l
+  | .int _ => .error .typeError
+  | .float _ => .error .typeError
+  | .bool _ => .error .typeError
+  | _ => .error .other
+
+/-- `rules` comma list with its default, per-rule validation, `empty` check -/
+def recorderRules (c3 : Dict) : Except Err Dict :=
+  let rules0 := splitCommasMaybe (getD c3 kRules)
+  let rules := if truthy rules0 then rules0 else defaultRules
+  let c4 := dictSet c3 kRules rules
+  match checkRulesV rules with
+  | .error e => .error e
+  | .ok () => match checkEmpty (getD c4 kEmpty) with
+    | .error e => .error e
+    | .ok () => .ok c4
+
+/-- `if isinstance(output, str): outputs[0] = Filter.parse_options(output)` -/
+def recorderOutput : Val → Val
+  | .str s => .tuple [.str (parseOptions s).1, .dict (parseOptions s).2]
+  | v => v
+
 def normalizeRecorder (env : Env) (c : Dict) : Except Err Dict :=
-  let outputs := splitCommasMaybe (getD c kOutputs)
   match normalizeFilter env (dictDel c kOutputs) with
   | .error e => .error e
   | .ok c1 =>
+    let outputs := splitCommasMaybe (getD c kOutputs)
     let c2 := putBack kOutputs outputs c1
     if !truthy (getD c2 kSources) then .error .valueError
     else if !truthy outputs then .error .valueError
     else match outputs with
       | .list [o] =>
-        let o1 := match o with
-          | .str s => let po := parseOptions s; Val.tuple [.str po.1, .dict po.2]
-          | v => v
-        match outputName o1 with
+        match outputName (recorderOutput o) with
         | .error e => .error e
         | .ok (.str name) =>
           if !startsWith filePrefix name then .error .valueError
-          else
-            let c3 := dictSet c2 kOutputs (.list [o1])
-            let rules0 := splitCommasMaybe (getD c3 kRules)
-            let rules := if truthy rules0 then rules0 else defaultRules
-            let c4 := dictSet c3 kRules rules
-            let chk : Except Err Unit := match rules with
-              | .list l => checkRules l
-              | .tuple l => checkRules l
-              | .int _ => .error .typeError
-              | .float _ => .error .typeError
-              | .bool _ => .error .typeError
-              | _ => .error .other
-            match chk with
-            | .error e => .error e
-            | .ok () => match checkEmpty (getD c4 kEmpty) with
-              | .error e => .error e
-              | .ok () => .ok c4
+          else recorderRules (dictSet c2 kOutputs (.list [recorderOutput o]))
         | .ok _ => .error .attributeError
       | .list _ => .error .valueError
       | .tuple [_] => .error .other
